@@ -70,6 +70,10 @@ type sysCase struct {
 	// JobLabel: every third target carries a discovered `job` label that differs from its job_name (Prometheus
 	// keeps a discovered job label; the target still belongs to its scrape config)
 	JobLabel bool `json:"jobLabel,omitempty"`
+	// SAPath: job1 authenticates with the pod's service-account token file (the well-known in-cluster path); the
+	// coordinator and the sidecars run with --inject.kubernetes-sa-path pointing at the directories where THEIR
+	// copies of the token are mounted
+	SAPath bool `json:"saPath,omitempty"`
 	// DropRule: job0 and job1 start with metric_relabel_configs that drop drop_.* samples
 	DropRule bool       `json:"dropRule,omitempty"`
 	Faults   []sysFault `json:"faults,omitempty"`
@@ -183,6 +187,8 @@ type shardProc struct {
 	logf       string
 	front      *httptest.Server
 	statusGets int64
+	cfgPosts   int64 // configuration pushes the coordinator sent to this shard
+	cfgPosts60 int64 // ... up to cycle 60
 	prom       *httptest.Server
 	mu         sync.Mutex
 	ingested   map[uint64]int // hash -> samples of the last successful scrape
@@ -424,6 +430,9 @@ func writeConfig(path, farmHost string, c *sysCase, dropped map[int]bool, rule b
 		if c.Params && j == 0 {
 			b.WriteString("  params:\n    module: [m0]\n")
 		}
+		if c.SAPath && j == 1 {
+			b.WriteString("  bearer_token_file: /var/run/secrets/kubernetes.io/serviceaccount/token\n")
+		}
 		if rule {
 			b.WriteString("  metric_relabel_configs:\n  - source_labels: [__name__]\n    regex: drop_.*\n    action: drop\n")
 		}
@@ -565,15 +574,25 @@ func runSys(c *sysCase) (vs []vkit.Violation, classes []string, infra error) {
 			if r.Method == "GET" && strings.HasPrefix(r.URL.Path, "/api/v1/shard/targets/status") {
 				atomic.AddInt64(&sp.statusGets, 1)
 			}
+			if r.Method == "POST" && strings.HasPrefix(r.URL.Path, "/api/v1/status/config") {
+				atomic.AddInt64(&sp.cfgPosts, 1)
+			}
 			if atomic.LoadInt32(&sp.paused) != 0 {
 				http.Error(w, "shard unreachable (scripted)", 503)
 				return
 			}
 			rp.ServeHTTP(w, r)
 		}))
+		if c.SAPath {
+			_ = os.MkdirAll(filepath.Join(dir, "sa-shard"), 0755)
+			_ = ioutil.WriteFile(filepath.Join(dir, "sa-shard", "token"), []byte("token-of-the-shards"), 0600)
+		}
 		s.args = []string{"sidecar", "--web.api-addr", fmt.Sprintf("127.0.0.1:%d", s.api), "--web.proxy-addr", fmt.Sprintf("127.0.0.1:%d", s.proxy),
 			"--prometheus.url", s.prom.URL, "--config.file", sidecarCfg, "--config.output-file", s.out, "--store.path", filepath.Join(s.dir, "store"),
 			"--inject.proxy", fmt.Sprintf("http://127.0.0.1:%d", s.proxy)}
+		if c.SAPath {
+			s.args = append(s.args, "--inject.kubernetes-sa-path", filepath.Join(dir, "sa-shard"))
+		}
 		shards = append(shards, s)
 		if err := s.start(bin); err != nil {
 			return nil, nil, errInfra{err.Error()}
@@ -589,6 +608,11 @@ func runSys(c *sysCase) (vs []vkit.Violation, classes []string, infra error) {
 	coord := exec.Command(bin, "coordinator", "--shard.type", "static", "--shard.static-file", staticFile, "--config.file", cfgFile,
 		"--coordinator.interval", "40ms", "--web.address", fmt.Sprintf("127.0.0.1:%d", cport),
 		"--shard.max-process-series", fmt.Sprint(c.MaxProc), "--sd.init-timeout", "20s", "--shard.max-head-series", fmt.Sprint(c.MaxHead))
+	if c.SAPath {
+		_ = os.MkdirAll(filepath.Join(dir, "sa-coord"), 0755)
+		_ = ioutil.WriteFile(filepath.Join(dir, "sa-coord", "token"), []byte("token-of-the-coordinator"), 0600)
+		coord.Args = append(coord.Args, "--inject.kubernetes-sa-path", filepath.Join(dir, "sa-coord"))
+	}
 	coord.Stdout, coord.Stderr = clog, clog
 	coord.SysProcAttr = &syscall.SysProcAttr{Pdeathsig: syscall.SIGKILL}
 	if err := coord.Start(); err != nil {
@@ -654,6 +678,11 @@ func runSys(c *sysCase) (vs []vkit.Violation, classes []string, infra error) {
 		}
 		seen = atomic.LoadInt64(&shards[0].statusGets)
 		cycles = k
+		if k == 60 {
+			for _, s := range shards {
+				s.cfgPosts60 = atomic.LoadInt64(&s.cfgPosts)
+			}
+		}
 		for _, f := range c.Faults {
 			if f.AtCycle != k {
 				continue
@@ -798,6 +827,16 @@ func runSys(c *sysCase) (vs []vkit.Violation, classes []string, infra error) {
 		if len(c.Faults) > 0 {
 			p = "C06"
 		}
+		if cycles >= 90 {
+			for i, s := range shards {
+				if d := atomic.LoadInt64(&s.cfgPosts) - s.cfgPosts60; d >= 20 {
+					// the coordinator keeps pushing its configuration: it never sees this shard report its hash,
+					// although the shard was started with / was sent exactly that configuration
+					add("C16/sys/shard-never-in-sync", "shard %d was sent the coordinator's configuration %d times between cycle 60 and cycle %d and is still not treated as in sync (sidecars in file mode: %v, service-account path injection: %v)", i, d, cycles, c.FileMode, c.SAPath)
+					break
+				}
+			}
+		}
 		for _, w := range why {
 			if strings.Contains(w, "which its generated configuration does not list") {
 				// the shard's Prometheus does not get a target that a single Prometheus would scrape
@@ -919,6 +958,7 @@ func runSys(c *sysCase) (vs []vkit.Violation, classes []string, infra error) {
 func genSys(t *rapid.T, faults bool) *sysCase {
 	c := &sysCase{Shards: rapid.IntRange(2, 4).Draw(t, "shards"), Params: rapid.Bool().Draw(t, "params"), DropRule: rapid.Bool().Draw(t, "dropRule")}
 	c.JobLabel = rapid.Bool().Draw(t, "jobLabel")
+	c.SAPath = rapid.IntRange(0, 2).Draw(t, "saPath") == 0
 	c.MaxProc = int64(rapid.SampledFrom([]int{40, 60, 100}).Draw(t, "maxProc"))
 	n := rapid.IntRange(2, 9).Draw(t, "targets")
 	// leave room: a static shard manager cannot scale up, and one shard may start with a full head
